@@ -83,14 +83,17 @@ PackExact(p) ==
 Misrouted(p) == Len(NonTick(p)) = 0 /\ p.q # CollOfPack(p).pairq[StreamOfPack(p)]
 \* known finding C01_tickonly_forward_order: a tick-only pack of a forwarded stream is emitted on the reading
 \* handler's channel, outside the stream's FIFO; with the finding enabled such packs are exempt from the order rule
-Exempt(o, i, j) == KFOn("C01_tickonly_forward_order") /\ (Misrouted(o[i]) \/ Misrouted(o[j]))
+\* per stream the pack numbers (position in the read sequence) of its emitted packs increase strictly; with the known
+\* finding enabled the misrouted tick-only packs are left out.  (Adjacent pairs suffice: < is transitive.)
 ReadOrder(o, rd, strict) ==
-    \A i, j \in 1..Len(o) : (i < j /\ StreamOfPack(o[i]) = StreamOfPack(o[j])) =>
-        \/ LET s == StreamOfPack(o[i])
-               rs == SelectSeq(rd, LAMBDA r : r.s = s)
-               no(id) == CHOOSE x \in 1..Len(rs) : rs[x].pack.id = id IN
-           no(PackId(o[i])) < no(PackId(o[j]))
-        \/ (~strict /\ Exempt(o, i, j))
+    LET keep(p) == strict \/ ~KFOn("C01_tickonly_forward_order") \/ ~Misrouted(p)
+        ok == SelectSeq(o, keep)
+        streams == {StreamOfPack(ok[i]) : i \in 1..Len(ok)} IN
+    \A s \in streams :
+       LET os == SelectSeq(ok, LAMBDA p : StreamOfPack(p) = s)
+           rs == SelectSeq(rd, LAMBDA r : r.s = s)
+           no(id) == CHOOSE x \in 1..Len(rs) : rs[x].pack.id = id IN
+       \A i \in 1..Len(os)-1 : no(PackId(os[i])) < no(PackId(os[i+1]))
 NoError == \A i \in 1..Len(evs) : evs[i].type # "ReplicateError"
 Complete ==
     (drained /\ NoError) =>
